@@ -341,6 +341,8 @@ func (c *regCtl) tssAck(t *rapid.T) {
 		c.note("ack", "tss", cls, out.Res.OK())
 		if out.Res.OK() {
 			p.Acked = true
+			p.Ack = ack
+			c.feeRecipientOK(p, "tss")
 		} else if !out.Unchanged() {
 			m.Failf("refused TSS-path acknowledgement changed state:\n%s", out.DiffString())
 		}
@@ -372,6 +374,20 @@ func (c *regCtl) sendTSS(t *rapid.T) {
 	c.m.Log("sendTSS", fmt.Sprint(src), fmt.Sprintf("ok=%v", out.OK))
 }
 
+// feeRecipientOK: a processed acknowledgement pays the relay fee to the relayer whose address registered on the sending chain
+// FOR THE PACKET'S DESTINATION CHAIN is the one the acknowledgement names; an address registered for another chain, or the
+// registry key of some relayer, names nobody for this chain (registration for one chain confers nothing for another).
+func (c *regCtl) feeRecipientOK(p *bridge.Pkt, path string) {
+	for _, e := range c.reg[p.SrcIdx] {
+		if a, ok := e[p.P.DstChain]; ok && strings.EqualFold(a, p.Ack.Relayer) {
+			c.m.R.Label("ack_" + path + "_fee_recipient_registered_for_the_destination")
+			return
+		}
+	}
+	c.m.Failf("acknowledgement of %s processed on chain %d although the fee recipient it names (%q) is the address nobody registered there for %s (registry: %v)",
+		p.T, p.SrcIdx, p.Ack.Relayer, p.P.DstChain, c.reg[p.SrcIdx])
+}
+
 // ackAnySigner: on a proof-verified path the property puts no condition on the submitter.
 func (c *regCtl) ackAnySigner(t *rapid.T) {
 	m := c.m
@@ -386,6 +402,7 @@ func (c *regCtl) ackAnySigner(t *rapid.T) {
 	out := w.DeliverDumped(p.SrcIdx, s, kit.MsgAck(w.Chains[p.DstIdx], p.Bz, p.AckBz, hs[len(hs)-1], s.Acc))
 	if out.Res.OK() {
 		p.Acked = true
+		c.feeRecipientOK(p, "tm")
 	} else if !out.Unchanged() {
 		m.Failf("refused acknowledgement changed state:\n%s", out.DiffString())
 	}
